@@ -28,7 +28,10 @@ func (s *SimpleLabelFilterPlanner) Process(ctx *shared.PlannerContext) (sql.ISel
 			With(withMain).
 			Select(sql.NewRawObject("fingerprint")).
 			From(sql.NewRawObject(ctx.TimeSeriesTableName)).
-			AndWhere(sql.NewIn(sql.NewRawObject("fingerprint"), sql.NewWithRef(withMain))),
+			AndWhere(
+				sql.Ge(sql.NewRawObject("date"), sql.NewStringVal(FormatFromDate(ctx.From))),
+				GetTypes(ctx),
+				sql.NewIn(sql.NewRawObject("fingerprint"), sql.NewWithRef(withMain))),
 		LabelValGetter: func(s string) sql.SQLObject {
 			return sql.NewRawObject(fmt.Sprintf("JSONExtractString(labels, '%s')", s))
 		},
